@@ -126,7 +126,10 @@ Record request := {
                                             carried by the request, never consulted by the router *)
   rq_headers : list (string * string);   (* canonical key -> first value *)
   rq_ip : string;                        (* realip.FromRequest *)
-  rq_body : Z }.                         (* number of body bytes the client sends (declared or chunked) *)
+  rq_body : Z;
+  rq_sni : string }.                     (* TLS ServerName of the connection ("" = none / plain HTTP):
+                                            carried by the request, never consulted by the router -
+                                            host rules match the Host header only *)                         (* number of body bytes the client sends (declared or chunked) *)
 
 Inductive res :=
 | Route (p : path_entry)
@@ -347,6 +350,15 @@ Section Mux.
 
   Definition serve_nocache (sv : server) (rq : request) : outcome :=
     dispatch sv rq (search_nocache sv rq).
+
+  (** mux.ServeHTTP, before any routing: paths under the reserved ACME HTTP-01 prefix - exactly
+      "/.well-known/acme-challenge/" INCLUDING the trailing slash - go to the auto-cert manager
+      (404 while none is started, as in the harness); every other path is routed *)
+  Definition acme_prefix : string := "/.well-known/acme-challenge/".
+  Definition reserved_path (rq : request) : bool := is_prefix acme_prefix (rq_path rq).
+
+  Definition mux_serve (sv : server) (rq : request) : outcome :=
+    if reserved_path rq then Failed 404 else serve_nocache sv rq.
 
   Definition serve_spec (sv : server) (rq : request) : outcome :=
     if denied sv rq then Failed 403 else dispatch sv rq (search_spec sv rq).
